@@ -495,7 +495,8 @@ def parallel_and_rename_pass(fn: ast.FunctionDef, qual: str, known_locals: Dict[
                     troots = {_root_name(x) for x in t.elts}
                     new_vals = [x for x in v.elts if isinstance(x, ast.Name) and x.id not in known and x.id not in params]
                     tpaths = {ast.unparse(x) for x in t.elts if not isinstance(x, ast.Name)}
-                    if new_vals and None not in troots and not (troots & vnames) and not any(tp in ast.unparse(v) for tp in tpaths):
+                    new_tgts = all(isinstance(x, ast.Name) and x.id not in known and x.id not in params for x in t.elts)
+                    if (new_vals or new_tgts) and None not in troots and not (troots & vnames) and not any(tp in ast.unparse(v) for tp in tpaths):
                         parts = [ast.copy_location(ast.Assign(targets=[te], value=ve, type_comment=None), st) for te, ve in zip(t.elts, v.elts)]
                         for p_ in parts:
                             ast.fix_missing_locations(p_)
@@ -516,6 +517,71 @@ def parallel_and_rename_pass(fn: ast.FunctionDef, qual: str, known_locals: Dict[
                         log.append(f"N {mod}:{st.lineno} new local `{old_name}` is `{t.id}` under an earlier name: renamed")
                         changed = changed_any = True
                         break
+            if changed:
+                break
+        if not changed:
+            break
+    return changed_any
+
+
+def branch_values_pass(fn: ast.FunctionDef, qual: str, known_locals: Dict[str, set], log: List[str], mod: str) -> bool:
+    """B: `if c: a, b = X1, Y1  else: a, b = X2, Y2` followed by statements that read the NEW locals a, b: the statements up
+    to the last such read are copied into both branches (tail duplication - always behaviour-preserving), after which the
+    branch-local values are ordinary temporaries of straight-line code.  Also `x.extend(repeat(v, n))` = `x.extend([v] * n)`."""
+    import copy
+    known = known_locals.get(qual)
+    if known is None and known_locals:
+        known = set()
+    if known is None:
+        return False
+    params = {a.arg for a in fn.args.posonlyargs + fn.args.args + fn.args.kwonlyargs}
+    changed_any = False
+    for n in _walk_own(fn):
+        if isinstance(n, ast.Call) and isinstance(n.func, ast.Attribute) and n.func.attr == "extend" and len(n.args) == 1 and not n.keywords:
+            a = n.args[0]
+            if isinstance(a, ast.Call) and ast.unparse(a.func) in ("repeat", "itertools.repeat") and len(a.args) == 2 and not a.keywords:
+                n.args[0] = ast.copy_location(ast.BinOp(left=ast.List(elts=[a.args[0]], ctx=ast.Load()), op=ast.Mult(), right=a.args[1]), a)
+                ast.fix_missing_locations(n)
+                log.append(f"B {mod}:{n.lineno} extend(repeat(v, n)) written as extend([v] * n)")
+                changed_any = True
+
+    def assigned(stmts):
+        out = set()
+        for st in stmts:
+            if isinstance(st, ast.Assign) and len(st.targets) == 1:
+                t = st.targets[0]
+                for e in (t.elts if isinstance(t, (ast.Tuple, ast.List)) else [t]):
+                    if isinstance(e, ast.Name):
+                        out.add(e.id)
+        return out
+    for _ in range(10):
+        changed = False
+        for blk in _blocks_of(fn):
+            for i, st in enumerate(blk):
+                if not (isinstance(st, ast.If) and st.orelse and i + 1 < len(blk)):
+                    continue
+                if any(isinstance(x, (ast.Return, ast.Break, ast.Continue, ast.Raise)) for b_ in (st.body, st.orelse) for s_ in b_ for x in ast.walk(s_)):
+                    continue
+                both = assigned(st.body[-1:]) & assigned(st.orelse[-1:])
+                both = {nm for nm in both if nm not in known and nm not in params}
+                if not both:
+                    continue
+                tail = blk[i + 1:]
+                last = -1
+                for k, t_ in enumerate(tail):
+                    if any(isinstance(x, ast.Name) and x.id in both for x in ast.walk(t_)):
+                        last = k
+                if last < 0 or last > 5:
+                    continue
+                moved = tail[: last + 1]
+                if any(isinstance(x, (ast.FunctionDef, ast.ClassDef, ast.Lambda)) for m_ in moved for x in ast.walk(m_)):
+                    continue
+                st.body.extend(copy.deepcopy(moved))
+                st.orelse.extend(copy.deepcopy(moved))
+                del blk[i + 1: i + 2 + last]
+                log.append(f"B {mod}:{st.lineno} the statements reading the branch-local value(s) {sorted(both)} copied into both branches")
+                changed = changed_any = True
+                break
             if changed:
                 break
         if not changed:
@@ -1408,6 +1474,7 @@ class Normalizer:
 
         def each(fn, qual, cls_node):
             fold_function(fn)          # what inlining a helper with constant arguments leaves behind
+            branch_values_pass(fn, qual, known_locals, self.log, mod)
             parallel_and_rename_pass(fn, qual, known_locals, self.log, mod)
             alias_pass(fn, cls_node, self.log, mod)
             temp_pass(fn, qual, known_locals, self.log, mod)
@@ -2529,12 +2596,87 @@ def rename_canonical_pass(trees: Dict[str, ast.Module], log: List[str]) -> None:
                     n.name = fn_renames[n.name]
 
 
+class _LowerMatch(ast.NodeTransformer):
+    """M: `match S:` over wildcards, constants, alternatives of constants and fixed-length sequence patterns of wildcards, with
+    optional guards, is the if / elif chain that tests the same things in the same order (S is a name, an attribute / subscript
+    of names, or len() of one: evaluating it once or once per test is the same).  Anything that binds a name (captures, class
+    and mapping patterns, starred parts) is left as it is."""
+
+    def __init__(self, mod: str, log: List[str]):
+        self.mod, self.log = mod, log
+
+    @staticmethod
+    def _simple(e) -> bool:
+        if isinstance(e, ast.Call) and isinstance(e.func, ast.Name) and e.func.id == "len" and len(e.args) == 1 and not e.keywords:
+            return _LowerMatch._simple(e.args[0])
+        while isinstance(e, (ast.Attribute, ast.Subscript)):
+            if isinstance(e, ast.Subscript) and not isinstance(e.slice, (ast.Constant, ast.Name)):
+                return False
+            e = e.value
+        return isinstance(e, ast.Name)
+
+    def _test(self, subj, pat):
+        import copy
+        S = lambda: copy.deepcopy(subj)
+        if isinstance(pat, ast.MatchAs) and pat.pattern is None and pat.name is None:
+            return True
+        if isinstance(pat, ast.MatchValue) and isinstance(pat.value, (ast.Constant, ast.Attribute)) or \
+                (isinstance(pat, ast.MatchValue) and isinstance(pat.value, ast.UnaryOp) and isinstance(pat.value.operand, ast.Constant)):
+            return ast.Compare(left=S(), ops=[ast.Eq()], comparators=[copy.deepcopy(pat.value)])
+        if isinstance(pat, ast.MatchSingleton):
+            return ast.Compare(left=S(), ops=[ast.Is()], comparators=[ast.Constant(value=pat.value)])
+        if isinstance(pat, ast.MatchOr):
+            parts = [self._test(subj, p_) for p_ in pat.patterns]
+            if any(p_ is None for p_ in parts):
+                return None
+            if any(p_ is True for p_ in parts):
+                return True
+            return ast.BoolOp(op=ast.Or(), values=parts)
+        if isinstance(pat, ast.MatchSequence) and all(isinstance(p_, ast.MatchAs) and p_.pattern is None and p_.name is None for p_ in pat.patterns):
+            # a sequence pattern matches any Sequence but str / bytes / bytearray, of exactly that length
+            seq = ast.Call(func=ast.Name(id="isinstance", ctx=ast.Load()), args=[S(), ast.Name(id="Sequence", ctx=ast.Load())], keywords=[])
+            nstr = ast.UnaryOp(op=ast.Not(), operand=ast.Call(func=ast.Name(id="isinstance", ctx=ast.Load()), args=[
+                S(), ast.Tuple(elts=[ast.Name(id=n_, ctx=ast.Load()) for n_ in ("str", "bytes", "bytearray")], ctx=ast.Load())], keywords=[]))
+            ln = ast.Compare(left=ast.Call(func=ast.Name(id="len", ctx=ast.Load()), args=[S()], keywords=[]), ops=[ast.Eq()], comparators=[ast.Constant(value=len(pat.patterns))])
+            return ast.BoolOp(op=ast.And(), values=[seq, nstr, ln])
+        return None
+
+    def visit_Match(self, node):
+        self.generic_visit(node)
+        if not self._simple(node.subject):
+            return node
+        tests = []
+        for c in node.cases:
+            t = self._test(node.subject, c.pattern)
+            if t is None:
+                return node
+            if c.guard is not None:
+                t = c.guard if t is True else ast.BoolOp(op=ast.And(), values=[t, c.guard])
+            tests.append(t)
+        chain = None
+        # cases after an irrefutable one are unreachable
+        cut = next((i for i, t in enumerate(tests) if t is True), None)
+        cases = list(zip(tests, node.cases))[: (cut + 1) if cut is not None else None]
+        for t, c in reversed(cases):
+            if t is True:
+                chain = list(c.body)
+            else:
+                chain = [ast.If(test=t, body=list(c.body), orelse=chain or [])]
+        self.log.append(f"M {self.mod}:{node.lineno} match statement over constants / wildcards written out as an if chain")
+        out = chain or [ast.Pass()]
+        for o_ in out:
+            ast.copy_location(o_, node)
+            ast.fix_missing_locations(o_)
+        return out if len(out) != 1 else out[0]
+
+
 def normalize_program(trees: Dict[str, ast.Module]) -> List[str]:
     log: List[str] = []
-    for tree in trees.values():
+    for mod_, tree in trees.items():
         _DropAnnotations().visit(tree)
         _DropZipStrict().visit(tree)
         _StarredDisplay().visit(tree)
+        _LowerMatch(mod_, log).visit(tree)
         ast.fix_missing_locations(tree)
     rename_canonical_pass(trees, log)
     constants_and_noise_pass(trees, log)
